@@ -175,6 +175,22 @@ def export(image_or_path, dest: str) -> List[str]:
     return [l[len("Exported "):] for l in out.getvalue().splitlines() if l.startswith("Exported ")]
 
 
+def export_reported(image_or_path, dest: str):
+    """Like export, but what was reported BEFORE an abort is kept: -> (Exported lines, error text or "")."""
+    from smpl_extract.actions import export_samples_to_wav
+    err = ""
+    with captured() as (out, _):
+        try:
+            with_watchdog(lambda: export_samples_to_wav(image_or_path, dest), CALL_CPU_S)
+        except Hang:
+            raise
+        except MemoryError:
+            raise
+        except BaseException as e:  # noqa - the abort is the observation
+            err = f"{type(e).__name__}: {e}"
+    return [l[len("Exported "):] for l in out.getvalue().splitlines() if l.startswith("Exported ")], err
+
+
 def open_image(path: str):
     from smpl_extract.actions import determine_image_type
     return determine_image_type(path)
